@@ -491,7 +491,10 @@ func (o *operatorActor) loop() {
 			pattern = map[string]string{"host": "worker0", "rack": "r2"}
 		}
 		kind := t.Weighted([]int{3, 1, 3, 3, 2, 2, 2, 2, 2, 1, 1, 1})
-		if w.faultFree && kind < 5 && w.prop == "C04" {
+		if w.faultFree && (kind < 2 || kind == 4) && w.prop == "C04" {
+			// No kills or terminations in the policy check; drains stay
+			// (a drained worker must get nothing, an undrained one must be
+			// woken for queued work).
 			kind = 5 + t.Choice(7)
 		}
 		var err error
